@@ -500,3 +500,10 @@ Proof.
   induction fuel as [|f IH]; intros; cbn [sync_first]; [apply (rel_ret E E_refl)|].
   repeat estep; try elem4; try eIH IH; try eprim.
 Qed.
+Lemma rtr_sync_E fuel w : relE (rtr_sync fuel) w.
+Proof.
+  unfold rtr_sync. repeat estep; try elem4; try apply sync_first_E; try apply receive_and_store_E; try (eprim; fail).
+  all: try (unfold rel; unfold_prims; destruct (negb _); efin).
+Qed.
+Lemma wait_for_sync_E w : relE wait_for_sync w.
+Proof. unfold wait_for_sync. repeat estep; try elem4. Qed.
